@@ -311,6 +311,7 @@ STD_HISTORY = [
     {"id": None, "st": None, "fn": "f", "fb": "6162", "eof": True, "mt": "text/plain", "tags": None},
     {"id": "c", "st": "success", "tags": [], "rc": "0/1", "runnable": False},
     {"id": "d", "st": "xfail", "tags": ["a"], "ts": 0},
+    {"id": "e", "st": None, "fn": "", "fb": "6869", "eof": True},
     {"id": "e", "st": "inprogress", "ts": 10 ** 9},
     {"id": "e", "st": "success"},
     "stop",
@@ -348,7 +349,9 @@ def random_event(rng):
     if rng.random() < 0.4:
         e["rc"] = rng.choice([None, "0", "0/1", "1"])
     if rng.random() < 0.3:
-        e.update(fn="f", fb=rng.choice(["", "78"]), eof=rng.random() < 0.5, mt=rng.choice([None, "text/plain"]))
+        # (a file may be named "" - only None means "no file")
+        e.update(fn=rng.choice(["f", "f", ""]), fb=rng.choice(["", "78"]), eof=rng.random() < 0.5,
+                 mt=rng.choice([None, "text/plain"]))
     if rng.random() < 0.25:
         e["runnable"] = False   # e.g. subtest reports
     if rng.random() < 0.15:
@@ -365,7 +368,7 @@ def run(ctx):
             n += 1
             ctx.execute("tree", {"tree": t, "history": STD_HISTORY})
     ctx.note_space("generator set: %d trees of depth <= 2 and %d of depth 3, each with the standard "
-                   "10-step history" % (len(upto2), len(depth3)), n)
+                   "11-step history" % (len(upto2), len(depth3)), n)
     ctx.notes["random_cases"] = True
     for i in range(ctx.scale(40000, 2000000)):
         if ctx.out_of_time():
